@@ -14,7 +14,11 @@ def dedup (l : List Bytes) : List Bytes := l.foldl (fun acc x => if acc.contains
 
 def pairLt (a b : Bytes × Bytes) : Bool := Spec.bytesLt a.1 b.1 || (a.1 == b.1 && Spec.bytesLt a.2 b.2)
 
+/-- the tables as the harness prints them by iterating the containers: `pretend_valid_map` is a
+    `std::set<std::pair<valtype,valtype>>`, so the pairs come out without duplicates, ordered by (signature, key) with
+    `std::vector::operator<` on each component (lexicographic on bytes, a proper prefix first) -/
 def showTables (pairs : List (Bytes × Bytes)) (keys : List Bytes) : String :=
+  let pairs := pairs.foldl (fun acc p => if acc.contains p then acc else acc ++ [p]) []
   let ps := (pairs.toArray.qsort pairLt).toList
   "map=" ++ ",".intercalate (ps.map (fun p => toHex p.1 ++ ":" ++ toHex p.2)) ++ " keys=" ++ ",".intercalate ((sortBytes (dedup keys)).map toHex)
 
@@ -32,7 +36,6 @@ def cmdPrun (spec : Bool) (a : List String) : String :=
         match Spec.pretendPairs specEval text with
         | none => "REFUSED:pretend"
         | some pairs =>
-          let pairs := pairs.foldl (fun acc p => if acc.contains p then acc else acc ++ [p]) []
           let head := showTables pairs (pairs.map (·.2))
           if !Spec.inDomain 0xba c.script then head ++ " REFUSED:invalid-script"
           else if c.sigver == .TAPSCRIPT && Spec.hasOpSuccess c.z c.script then head ++ " REFUSED:op-success"
